@@ -99,6 +99,18 @@ CLAIMED = {
         note="Trusted: Coq kernel, extraction, harness; rayon::join = left then right on disjoint halves; stack depth / running time outside the list model (the finding above was caught by the oracle on the implementation). Axioms: none (recursion on fuel).",
         technique="Coq proof over a concrete list model of all of par_sort.rs + differential correspondence incl. adversarial inputs",
     ),
+    "C06": dict(
+        text="Coq theorem over the protocol model (Model/Nucleo.v, Proofs/SnapshotFacts.v, 2300 lines, an inductive invariant through every phase of Worker::run, tick_inner and the injectors): in EVERY state reachable by a well-formed history with truthful append flags - any interleaving, any timeout / cancellation, runs stopped anywhere, whatever the parallel scan happened to see - the snapshot's matches are duplicate-free, never a placeholder, initialised items of the snapshot's stream carrying exactly the score of the snapshot's pattern; a set of exactly item_count() initialised processed items contains all matches and every processed item the pattern matches is reported; the order is score descending, column length ascending, index ascending, or index order for the empty pattern (C06_snapshot). Hypothesis: no stream exceeds u32::MAX reservations (guaranteed by boxcar's capacity check, C11); without it the statement is refuted for the unbounded model (C06_unbounded_refuted). Tie: model-guided scheduled histories (6 styles incl. cancel-heavy) replayed on the real Nucleo; every observation compared with the extracted model and checked by an independent oracle (scores from the real Pattern::score).",
+        design_ref="DESIGN.md section 6, C06",
+        note="Trusted: Coq kernel, extraction, scheduler harness; interleavings at yield-point granularity with the scan's view over-approximated by a parameter; matcher scores are a table computed by the real Pattern::score (matcher correctness is C01-C05, pattern scoring C15); par_sort's contract is C18. Axioms: none.",
+        technique="Coq inductive invariant over the protocol LTS + scheduled-history correspondence",
+    ),
+    "C07": dict(
+        text="Protocol half: Coq theorem C07_converges over the protocol model - in every reachable (truthful) quiescent state (UI idle, lock free, last tick said `not running`, nothing pending, all items published before that tick) the snapshot is of the current stream and pattern, counts every item and contains exactly the items a from-scratch scan matches (scores and order by C06_snapshot), whatever edits (append / non-append), ticks, timeouts, cancellations and restarts led there. Text half: C07_append_refines (Spec/AppendSpec.v, Proofs/AppendFacts.v): for every seg-simple old text and suffix, every case / normalisation setting, if the translated condition of MultiPattern::reparse allows `Update` then every haystack matched by the new atoms is matched by the old atoms, outside known finding K3 (machine-checked refutation C07_append_K3_refuted); C07_append_refines_run states the same against the matcher model. The proof attempt found a second unsound append case (escaped trailing '$'), repaired by fix bc017c9 (C07_append_old_condition_refuted documents it). Tie: scheduled histories as for C06 plus ~9000 (quick) / 75000 (thorough) typed (old, old+suffix) pairs through the real MultiPattern::reparse: the Update/Rescore decision is compared with the extracted AppendSpec.update_allowed, and under Update no haystack of a pool (28 fixed + 3 derived from the new pattern) may be newly matched.",
+        design_ref="DESIGN.md section 6, C07",
+        note="Known finding K3 (U+0185/U+2C65/U+2C66 with smart normalisation) is reported as KNOWN-FINDING. Trusted: as C06; the append theorem is over the pattern parser model (tied to the code by C14's correspondence) restricted to seg-simple texts (grapheme segmentation = CRLF rule). Axioms: none.",
+        technique="Coq inductive invariant over the protocol LTS + theorem over the parser model + scheduled-history and typed-pair correspondence",
+    ),
     "C12": dict(
         text="Coq theorems over the protocol model (Model/Nucleo.v): restart(true) empties and re-targets the snapshot at once, restart(false) leaves it untouched, the new stream id is fresh (C12_restart); nothing but a tick or restart(true) ever changes the snapshot - in particular no injector activity on any stream (C12_snapshot_stable); a tick only ever installs a snapshot of the current stream (C12_pickup_current); every index in the snapshot is an initialised item of the snapshot's own stream, so the streams are never mixed and the snapshot stays safe to read (C12_no_mix), for every history and interleaving. Tie: model-guided random walks over the enabled events of the extracted model (5 styles incl. writers parked between reservation and publication, restart-heavy, zero-timeout ticks racing the end of the run), replayed on the real Nucleo by the scheduler; every observation (tick status, snapshot pattern/count/matches/item data, active_injectors, notify count, unchecked reads of uninitialised entries) compared with the model and checked by the property oracle.",
         design_ref="DESIGN.md section 6, C12",
